@@ -909,6 +909,12 @@ class Ref(Field):
 
         assert isinstance(referenced, Packet)
 
+        # The callable may hand out the same packet instance more than once
+        # (think in the instances stored in a 'chooses' table): never parse
+        # into it, parse into a new packet of its class instead so the packets
+        # already parsed don't get overwritten nor shared.
+        referenced = referenced.__class__(_initialize_fields=False)
+
         setattr(pkt, self.field_name, referenced)
         return referenced.unpack_impl(raw, offset, **k)
 
